@@ -40,6 +40,7 @@ def main(tier, replay):
         txt = open(os.path.join(gd, 'zz_verif_h0.go')).read().replace('package bitpack', 'package bitpackgen')
         open(os.path.join(gd, 'zz_verif_h0.go'), 'w').write(txt)
         shutil.copy(intr_sym('bitpackgen', c.scratch), os.path.join(gd, 'zz_verif_i.go'))
+        write_pkg_manifest(gd, 'bitpackgen', [], {})
         gjobs = []
         for w in (1, 2, 3, 4):
             gjobs.append({'name': 'gen-pack-w%d' % w, 'pkg': 'scratch/bitpackgen', 'func': 'HarnessPack', 'args': [w, 0]})
